@@ -48,6 +48,16 @@ def run(chk, replay=None):
                                  lambda e: SITE + e.get("op", "?"))
         chk.sample({"recorded_event": json.loads(open(trace).readlines()[1])})
 
+        # ---- design level: the lock discipline (all interleavings of three goroutines' programs)
+        for prog in ("P_race", "P_group"):
+            rc = vlib.run_tlc("MC_NameTableConc", vlib.cfg("C17_conc.cfg", PROG=prog), workers=4, timeout=600)
+            chk.add_tlc("lock_discipline_" + prog, rc)
+        gdev = vlib.run_tlc("MC_NameTableConc", vlib.cfg("C17_conc.cfg", PROG="P_race").replace("UnlockedRegister = FALSE", "UnlockedRegister = TRUE"),
+                            allow_violation=True, timeout=600)
+        if not gdev.violation:
+            raise vlib.Infra("vacuity guard: unlocked check-then-act Register not distinguished")
+        chk.part("lock_discipline", unlocked_register_yields_counterexample=gdev.violation)
+
         # ---- vacuity guards / binding demonstrations (thorough)
         if tier == "thorough":
             guards = {}
